@@ -58,3 +58,11 @@ func VerifTypeInfoAliased(t reflect.Type) bool {
 	}
 	return ok && (f.(*typeInfo) == a || f.(*typeInfo) == b)
 }
+
+// VerifResetTypeCache empties the type cache (cold-cache oracle).
+func VerifResetTypeCache() {
+	typeCache.Range(func(k, _ interface{}) bool {
+		typeCache.Delete(k)
+		return true
+	})
+}
